@@ -618,4 +618,748 @@ theorem mem_removeFile_file (hf : IsFile m p) : Mem.pRemoveFile m p = (.ok (), m
 
 end memEval
 
+/-! ### the same contracts for the in-memory backend -/
+
+section mem
+variable (m : FMap) (p : Str)
+
+/-- remove_dir on MemoryFS: the contract of `removeDir_contract`; a missing target is not-found
+whatever its parent is -/
+theorem mem_removeDir_contract :
+    ((Mem.pRemoveDir m p).1.isOk = true ↔ IsDir m p ∧ NoChildren m p) ∧
+    ((Mem.pRemoveDir m p).1.isOk = true →
+        Absent (Mem.pRemoveDir m p).2 p ∧ Frame m (Mem.pRemoveDir m p).2 p) ∧
+    ((Mem.pRemoveDir m p).1.isOk = false → (Mem.pRemoveDir m p).2 = m) ∧
+    (Absent m p → (Mem.pRemoveDir m p).1.kind? = some .fileNotFound) ∧
+    (IsDir m p → ¬ NoChildren m p → errClass (Mem.pRemoveDir m p).1 = some .otherFailure) ∧
+    (IsFile m p → errClass (Mem.pRemoveDir m p).1 = some .otherFailure) := by
+  rcases present_cases m p with ha | hf | hd
+  · rw [mem_removeDir_absent m p ha]
+    exact ⟨by simp [Res.isOk, not_isDir_of_absent ha], by simp [Res.isOk], fun _ => rfl, fun _ => rfl,
+      fun h => absurd h (not_isDir_of_absent ha), fun h => absurd h (not_isFile_of_absent ha)⟩
+  · have hnd := not_isDir_of_isFile hf
+    rw [mem_removeDir_file m p hf]
+    exact ⟨by simp [Res.isOk, hnd], by simp [Res.isOk], fun _ => rfl,
+      fun ha => absurd hf (not_isFile_of_absent ha), fun h => absurd h hnd, fun _ => rfl⟩
+  · have hna : ¬ Absent m p := fun ha => not_isDir_of_absent ha hd
+    have hnf : ¬ IsFile m p := fun hf => not_isDir_of_isFile hf hd
+    by_cases hc : NoChildren m p
+    · rw [mem_removeDir_empty m p hd hc]
+      refine ⟨by simp [Res.isOk, hd, hc], ?_, by simp [Res.isOk], fun ha => absurd ha hna,
+        fun _ h => absurd hc h, fun h => absurd h hnf⟩
+      intro _
+      exact ⟨by simp [Absent], fun k hk => FMap.find?_erase_ne m p k hk⟩
+    · rw [mem_removeDir_nonempty m p hd hc]
+      exact ⟨by simp [Res.isOk, hc], by simp [Res.isOk], fun _ => rfl, fun ha => absurd ha hna,
+        fun _ _ => rfl, fun h => absurd h hnf⟩
+
+theorem mem_removeDir_ok_iff : (Mem.pRemoveDir m p).1.isOk = true ↔ IsDir m p ∧ NoChildren m p :=
+  (mem_removeDir_contract m p).1
+
+theorem mem_removeDir_effect (h : (Mem.pRemoveDir m p).1.isOk = true) :
+    Absent (Mem.pRemoveDir m p).2 p ∧ Frame m (Mem.pRemoveDir m p).2 p :=
+  (mem_removeDir_contract m p).2.1 h
+
+theorem mem_removeDir_unchanged_on_failure (h : (Mem.pRemoveDir m p).1.isOk = false) :
+    (Mem.pRemoveDir m p).2 = m :=
+  (mem_removeDir_contract m p).2.2.1 h
+
+/-- the write session on MemoryFS: the contract of `write_contract` -/
+theorem mem_write_contract (hp : Abs p) (bs : Bytes) :
+    ((Mem.pWrite m p bs).1.isOk = true ↔ IsDir m (parentInternal p) ∧ (Absent m p ∨ IsFile m p)) ∧
+    ((Mem.pWrite m p bs).1.isOk = true →
+        HasFile (Mem.pWrite m p bs).2 p bs ∧ Frame m (Mem.pWrite m p bs).2 p ∧
+        ∃ md, Mem.metadata (Mem.pWrite m p bs).2 p = .ok md ∧ md.ftype = .file ∧ md.len = bs.length) ∧
+    ((Mem.pWrite m p bs).1.isOk = false → (Mem.pWrite m p bs).2 = m) ∧
+    (IsDir m (parentInternal p) → IsDir m p → errClass (Mem.pWrite m p bs).1 = some .otherFailure) ∧
+    (¬ IsDir m (parentInternal p) → errClass (Mem.pWrite m p bs).1 = some .otherFailure) := by
+  have hs := hp.slash
+  have hmeta : ∀ m', HasFile m' p bs →
+      ∃ md, Mem.metadata m' p = .ok md ∧ md.ftype = .file ∧ md.len = bs.length := by
+    rintro m' ⟨e, he, ht, hc⟩
+    refine ⟨e.meta, by simp [Mem.metadata, he], by simp [Entry.meta, ht], by simp [Entry.meta, hc]⟩
+  by_cases hpar : IsDir m (parentInternal p)
+  · rcases present_cases m p with ha | hf | hd
+    · obtain ⟨m', he, h1, h2⟩ := mem_write_ok m p bs hs hpar (Or.inl ha)
+      rw [he]
+      exact ⟨by simp [Res.isOk, hpar, ha], fun _ => ⟨h1, h2, hmeta _ h1⟩, by simp [Res.isOk],
+        fun _ hd => absurd hd (not_isDir_of_absent ha), fun h => absurd hpar h⟩
+    · obtain ⟨m', he, h1, h2⟩ := mem_write_ok m p bs hs hpar (Or.inr hf)
+      rw [he]
+      exact ⟨by simp [Res.isOk, hpar, hf], fun _ => ⟨h1, h2, hmeta _ h1⟩, by simp [Res.isOk],
+        fun _ hd => absurd hd (not_isDir_of_isFile hf), fun h => absurd hpar h⟩
+    · have hna : ¬ Absent m p := fun ha => not_isDir_of_absent ha hd
+      have hnf : ¬ IsFile m p := fun hf => not_isDir_of_isFile hf hd
+      rw [mem_write_dir m p bs hs hpar hd]
+      exact ⟨by simp [Res.isOk, hna, hnf], by simp [Res.isOk], fun _ => rfl, fun _ _ => rfl,
+        fun h => absurd hpar h⟩
+  · rw [mem_write_noparent m p bs hpar]
+    exact ⟨by simp [Res.isOk, hpar], by simp [Res.isOk], fun _ => rfl, fun h => absurd h hpar,
+      fun _ => rfl⟩
+
+theorem mem_write_ok_iff (hp : Abs p) (bs : Bytes) :
+    (Mem.pWrite m p bs).1.isOk = true ↔ IsDir m (parentInternal p) ∧ (Absent m p ∨ IsFile m p) :=
+  (mem_write_contract m p hp bs).1
+
+theorem mem_write_effect (hp : Abs p) (bs : Bytes) (h : (Mem.pWrite m p bs).1.isOk = true) :
+    HasFile (Mem.pWrite m p bs).2 p bs ∧ Frame m (Mem.pWrite m p bs).2 p :=
+  ⟨((mem_write_contract m p hp bs).2.1 h).1, ((mem_write_contract m p hp bs).2.1 h).2.1⟩
+
+theorem mem_write_unchanged_on_failure (hp : Abs p) (bs : Bytes)
+    (h : (Mem.pWrite m p bs).1.isOk = false) : (Mem.pWrite m p bs).2 = m :=
+  (mem_write_contract m p hp bs).2.2.1 h
+
+/-- the append session on MemoryFS: the contract of `append_contract`; a missing target is
+not-found whatever its parent is -/
+theorem mem_append_contract (bs : Bytes) :
+    ((Mem.pAppend m p bs).1.isOk = true ↔ IsFile m p) ∧
+    ((Mem.pAppend m p bs).1.isOk = true →
+        (∃ old, HasFile m p old ∧ HasFile (Mem.pAppend m p bs).2 p (old ++ bs)) ∧
+        Frame m (Mem.pAppend m p bs).2 p) ∧
+    ((Mem.pAppend m p bs).1.isOk = false → (Mem.pAppend m p bs).2 = m) ∧
+    (Absent m p → (Mem.pAppend m p bs).1.kind? = some .fileNotFound) ∧
+    (IsDir m p → errClass (Mem.pAppend m p bs).1 = some .otherFailure) := by
+  rcases present_cases m p with ha | hf | hd
+  · rw [mem_append_absent m p bs ha]
+    exact ⟨by simp [Res.isOk, not_isFile_of_absent ha], by simp [Res.isOk], fun _ => rfl, fun _ => rfl,
+      fun h => absurd h (not_isDir_of_absent ha)⟩
+  · obtain ⟨e, he, ht⟩ := hf
+    rw [mem_append_file m p bs e he ht]
+    refine ⟨by simp [Res.isOk]; exact ⟨e, he, ht⟩, ?_, by simp [Res.isOk], ?_, ?_⟩
+    · intro _
+      exact ⟨⟨e.content, ⟨e, he, ht, rfl⟩, ⟨_, FMap.find?_insert_self _ _ _, rfl, rfl⟩⟩,
+        fun k hk => FMap.find?_insert_ne m p k _ hk⟩
+    · intro ha; rw [Absent, he] at ha; cases ha
+    · intro hd; exact absurd hd (not_isDir_of_isFile ⟨e, he, ht⟩)
+  · have hnf : ¬ IsFile m p := fun hf => not_isDir_of_isFile hf hd
+    rw [mem_append_dir m p bs hd]
+    exact ⟨by simp [Res.isOk, hnf], by simp [Res.isOk], fun _ => rfl,
+      fun ha => absurd hd (not_isDir_of_absent ha), fun _ => rfl⟩
+
+theorem mem_append_ok_iff (bs : Bytes) : (Mem.pAppend m p bs).1.isOk = true ↔ IsFile m p :=
+  (mem_append_contract m p bs).1
+
+theorem mem_append_effect (bs : Bytes) (h : (Mem.pAppend m p bs).1.isOk = true) :
+    (∃ old, HasFile m p old ∧ HasFile (Mem.pAppend m p bs).2 p (old ++ bs)) ∧
+    Frame m (Mem.pAppend m p bs).2 p :=
+  (mem_append_contract m p bs).2.1 h
+
+theorem mem_append_unchanged_on_failure (bs : Bytes) (h : (Mem.pAppend m p bs).1.isOk = false) :
+    (Mem.pAppend m p bs).2 = m :=
+  (mem_append_contract m p bs).2.2.1 h
+
+/-- create_dir on MemoryFS: the contract of `createDir_contract`, proved directly -/
+theorem mem_createDir_contract (hp : Abs p) :
+    ((Mem.pCreateDir m p).1.isOk = true ↔ IsDir m (parentInternal p) ∧ Absent m p) ∧
+    ((Mem.pCreateDir m p).1.isOk = true →
+        IsDir (Mem.pCreateDir m p).2 p ∧ Frame m (Mem.pCreateDir m p).2 p) ∧
+    ((Mem.pCreateDir m p).1.isOk = false → (Mem.pCreateDir m p).2 = m) ∧
+    (IsDir m (parentInternal p) → IsFile m p → (Mem.pCreateDir m p).1.kind? = some .fileExists) ∧
+    (IsDir m (parentInternal p) → IsDir m p → (Mem.pCreateDir m p).1.kind? = some .dirExists) := by
+  have hs := hp.slash
+  by_cases hpar : IsDir m (parentInternal p)
+  · rcases present_cases m p with ha | hf | hd
+    · rw [mem_createDir_fresh m p hs hpar ha]
+      refine ⟨by simp [Res.isOk, hpar, ha], ?_, by simp [Res.isOk],
+        fun _ h => absurd h (not_isFile_of_absent ha), fun _ h => absurd h (not_isDir_of_absent ha)⟩
+      intro _
+      exact ⟨⟨dirEntryNow, by simp, rfl⟩, fun k hk => FMap.find?_insert_ne m p k _ hk⟩
+    · have hna : ¬ Absent m p := fun ha => not_isFile_of_absent ha hf
+      rw [mem_createDir_file m p hs hpar hf]
+      exact ⟨by simp [Res.isOk, hna], by simp [Res.isOk], fun _ => rfl, fun _ _ => rfl,
+        fun _ h => absurd h (not_isDir_of_isFile hf)⟩
+    · have hna : ¬ Absent m p := fun ha => not_isDir_of_absent ha hd
+      rw [mem_createDir_dir m p hs hpar hd]
+      exact ⟨by simp [Res.isOk, hna], by simp [Res.isOk], fun _ => rfl,
+        fun _ h => absurd hd (not_isDir_of_isFile h), fun _ _ => rfl⟩
+  · rw [mem_createDir_noparent m p hpar]
+    exact ⟨by simp [Res.isOk, hpar], by simp [Res.isOk], fun _ => rfl, fun h => absurd h hpar,
+      fun h => absurd h hpar⟩
+
+theorem mem_createDir_effect (hp : Abs p) (h : (Mem.pCreateDir m p).1.isOk = true) :
+    IsDir (Mem.pCreateDir m p).2 p ∧ Frame m (Mem.pCreateDir m p).2 p :=
+  (mem_createDir_contract m p hp).2.1 h
+
+theorem mem_createDir_unchanged_on_failure (hp : Abs p) (h : (Mem.pCreateDir m p).1.isOk = false) :
+    (Mem.pCreateDir m p).2 = m :=
+  (mem_createDir_contract m p hp).2.2.1 h
+
+/-- remove_file on MemoryFS: the contract of `removeFile_contract`, proved directly -/
+theorem mem_removeFile_contract :
+    ((Mem.pRemoveFile m p).1.isOk = true ↔ IsFile m p) ∧
+    ((Mem.pRemoveFile m p).1.isOk = true →
+        Absent (Mem.pRemoveFile m p).2 p ∧ Frame m (Mem.pRemoveFile m p).2 p) ∧
+    ((Mem.pRemoveFile m p).1.isOk = false → (Mem.pRemoveFile m p).2 = m) ∧
+    (Absent m p → (Mem.pRemoveFile m p).1.kind? = some .fileNotFound) ∧
+    (IsDir m p → errClass (Mem.pRemoveFile m p).1 = some .otherFailure) := by
+  rcases present_cases m p with ha | hf | hd
+  · rw [mem_removeFile_absent m p ha]
+    exact ⟨by simp [Res.isOk, not_isFile_of_absent ha], by simp [Res.isOk], fun _ => rfl, fun _ => rfl,
+      fun h => absurd h (not_isDir_of_absent ha)⟩
+  · rw [mem_removeFile_file m p hf]
+    refine ⟨by simp [Res.isOk, hf], ?_, by simp [Res.isOk], fun ha => absurd hf (not_isFile_of_absent ha),
+      fun h => absurd h (not_isDir_of_isFile hf)⟩
+    intro _
+    exact ⟨by simp [Absent], fun k hk => FMap.find?_erase_ne m p k hk⟩
+  · have hnf : ¬ IsFile m p := fun hf => not_isDir_of_isFile hf hd
+    rw [mem_removeFile_dir m p hd]
+    exact ⟨by simp [Res.isOk, hnf], by simp [Res.isOk], fun _ => rfl,
+      fun ha => absurd hd (not_isDir_of_absent ha), fun _ => rfl⟩
+
+theorem mem_removeFile_effect (h : (Mem.pRemoveFile m p).1.isOk = true) :
+    Absent (Mem.pRemoveFile m p).2 p ∧ Frame m (Mem.pRemoveFile m p).2 p :=
+  (mem_removeFile_contract m p).2.1 h
+
+theorem mem_removeFile_unchanged_on_failure (h : (Mem.pRemoveFile m p).1.isOk = false) :
+    (Mem.pRemoveFile m p).2 = m :=
+  (mem_removeFile_contract m p).2.2.1 h
+
+/-- a target that is missing is reported as not-found by every MemoryFS primitive that needs
+its target (remove_file, remove_dir, append_file, metadata, read_dir, open_file) — and nothing
+changes -/
+theorem mem_missing_target_notFound (bs : Bytes) (ha : Absent m p) :
+    (Mem.pRemoveFile m p).1.kind? = some .fileNotFound ∧
+    (Mem.pRemoveDir m p).1.kind? = some .fileNotFound ∧
+    (Mem.pAppend m p bs).1.kind? = some .fileNotFound ∧
+    (Mem.metadata m p).kind? = some .fileNotFound ∧
+    (Mem.readDir m p).kind? = some .fileNotFound ∧
+    (Mem.openFile m p).1.kind? = some .fileNotFound ∧ (Mem.openFile m p).2 = m := by
+  refine ⟨(mem_removeFile_contract m p).2.2.2.1 ha, (mem_removeDir_contract m p).2.2.2.1 ha,
+    (mem_append_contract m p bs).2.2.2.1 ha, ?_, ?_, ?_, ?_⟩ <;>
+  · rw [Absent] at ha
+    simp [Mem.metadata, Mem.readDir, Mem.openFile, Mem.setAccessed, ha, fail, Res.kind?]
+
+end mem
+
+/-! ### the observers on the in-memory backend
+
+`exists` (`contains_key`), `metadata` and `read_dir` take the read lock and return no new map:
+they cannot change the tree. `open_file` takes the WRITE lock and stamps the access time of the
+entry it finds BEFORE it checks the type (memory.rs `open_file`), so it changes the access time
+of `p` — also when it then refuses a directory — and nothing else. -/
+
+section memObservers
+variable (m : FMap) (p : Str)
+
+theorem mem_exists_contract :
+    (m.contains p = true ↔ ¬ Absent m p) ∧ (m.contains p = false ↔ Absent m p) := by
+  unfold FMap.contains Absent
+  cases m.find? p <;> simp
+
+theorem mem_metadata_contract :
+    ((Mem.metadata m p).isOk = true ↔ ¬ Absent m p) ∧
+    (IsDir m p → ∃ md, Mem.metadata m p = .ok md ∧ md.ftype = .dir) ∧
+    (∀ bs, HasFile m p bs → ∃ md, Mem.metadata m p = .ok md ∧ md.ftype = .file ∧ md.len = bs.length) ∧
+    (Absent m p → (Mem.metadata m p).kind? = some .fileNotFound) := by
+  unfold Mem.metadata
+  rcases Option.eq_none_or_eq_some (m.find? p) with hf | ⟨e, hf⟩
+  · have ha : Absent m p := hf
+    simp only [hf]
+    exact ⟨by simp [fail, Res.isOk, ha], fun h => absurd h (not_isDir_of_absent ha),
+      fun bs h => absurd h.isFile (not_isFile_of_absent ha), fun _ => rfl⟩
+  · simp only [hf]
+    refine ⟨by simp [Res.isOk, Absent, hf], ?_, ?_, ?_⟩
+    · rintro ⟨e', he', ht'⟩
+      rw [hf] at he'; injection he' with he'; subst he'
+      exact ⟨e.meta, rfl, by simp [Entry.meta, ht']⟩
+    · rintro bs ⟨e', he', ht', hc'⟩
+      rw [hf] at he'; injection he' with he'; subst he'
+      exact ⟨e.meta, rfl, by simp [Entry.meta, ht'], by simp [Entry.meta, hc']⟩
+    · intro ha; rw [Absent, hf] at ha; cases ha
+
+theorem mem_readDir_contract :
+    ((Mem.readDir m p).isOk = true ↔ IsDir m p) ∧
+    (∀ l, Mem.readDir m p = .ok l →
+        (∀ n, n ∈ l ↔ '/' ∉ n ∧ ¬ Absent m (p ++ '/' :: n)) ∧ (FMap.NodupKeys m → l.Nodup)) ∧
+    (Absent m p → (Mem.readDir m p).kind? = some .fileNotFound) ∧
+    (IsFile m p → errClass (Mem.readDir m p) = some .otherFailure) := by
+  unfold Mem.readDir
+  rcases Option.eq_none_or_eq_some (m.find? p) with hf | ⟨e, hf⟩
+  · have ha : Absent m p := hf
+    simp only [hf]
+    refine ⟨by simp [fail, Res.isOk, not_isDir_of_absent ha], ?_, fun _ => rfl,
+      fun h => absurd h (not_isFile_of_absent ha)⟩
+    intro l h; simp [fail] at h
+  · have hna : ¬ Absent m p := by rw [Absent, hf]; simp
+    simp only [hf]
+    cases ht : e.ftype
+    · have hfile : IsFile m p := ⟨e, hf, ht⟩
+      simp only [↓reduceIte]
+      refine ⟨by simp [fail, Res.isOk, not_isDir_of_isFile hfile], ?_, fun ha => absurd ha hna, fun _ => rfl⟩
+      intro l h; simp [fail] at h
+    · have hdir : IsDir m p := ⟨e, hf, ht⟩
+      simp only [show (FType.dir = FType.file) = False from by simp, ↓reduceIte]
+      refine ⟨by simp [Res.isOk, hdir], ?_, fun ha => absurd ha hna,
+        fun h => absurd hdir (not_isDir_of_isFile h)⟩
+      intro l h
+      injection h with h
+      subst h
+      exact ⟨fun n => mem_children_iff m p n, fun hk => filterMap_childName_nodup m p hk⟩
+
+/-- what `open_file` does to the map: the access time of `p` (if present) becomes "now" -/
+theorem mem_openFile_snd :
+    (Mem.openFile m p).2 =
+      match m.find? p with
+      | none => m
+      | some e => m.insert p { e with accessed := .now } := by
+  unfold Mem.openFile Mem.setAccessed
+  cases hf : m.find? p with
+  | none => rfl
+  | some e =>
+    simp only [FMap.find?_insert_self]
+    split <;> rfl
+
+theorem mem_openFile_map :
+    Frame m (Mem.openFile m p).2 p ∧
+    (∀ e, m.find? p = some e → (Mem.openFile m p).2.find? p = some { e with accessed := .now }) ∧
+    CoreEq (Mem.openFile m p).2 m := by
+  rw [mem_openFile_snd]
+  cases hf : m.find? p with
+  | none => exact ⟨fun k _ => rfl, (fun e he => by cases he), CoreEq.refl m⟩
+  | some e =>
+    refine ⟨fun k hk => FMap.find?_insert_ne m p k _ hk, ?_, ?_⟩
+    · intro e' he'; injection he' with he'; subst he'; simp
+    · intro k
+      simp only [FMap.find?_insert]
+      split
+      · rename_i hk; subst hk; simp [hf, core]
+      · rfl
+
+/-- `open_file` on MemoryFS succeeds exactly on files and serves exactly the file's bytes; a
+missing target is not-found and nothing changes; a directory is refused. The map changes only
+in the access-time stamp of `p` (content and types are untouched: `CoreEq`) -/
+theorem mem_openFile_contract :
+    ((Mem.openFile m p).1.isOk = true ↔ IsFile m p) ∧
+    (∀ bs, HasFile m p bs →
+        (Mem.openFile m p).1 = .ok { content := bs, pos := 0 } ∧
+        (RHandle.readToEnd { content := bs, pos := 0 }).1 = .ok bs) ∧
+    (Absent m p → (Mem.openFile m p).1.kind? = some .fileNotFound ∧ (Mem.openFile m p).2 = m) ∧
+    (IsDir m p → errClass (Mem.openFile m p).1 = some .otherFailure) ∧
+    (Frame m (Mem.openFile m p).2 p ∧
+      (∀ e, m.find? p = some e → (Mem.openFile m p).2.find? p = some { e with accessed := .now }) ∧
+      CoreEq (Mem.openFile m p).2 m) := by
+  refine ⟨?_, ?_, ?_, ?_, mem_openFile_map m p⟩
+  · rcases present_cases m p with ha | ⟨e, he, ht⟩ | ⟨e, he, ht⟩
+    · have hnf := not_isFile_of_absent ha
+      rw [Absent] at ha
+      simp [Mem.openFile, Mem.setAccessed, ha, fail, Res.isOk, hnf]
+    · have hfile : IsFile m p := ⟨e, he, ht⟩
+      simp [Mem.openFile, Mem.setAccessed, he, ht, Res.isOk, hfile]
+    · have hnf : ¬ IsFile m p := fun h => not_isDir_of_isFile h ⟨e, he, ht⟩
+      simp [Mem.openFile, Mem.setAccessed, he, ht, fail, Res.isOk, hnf]
+  · rintro bs ⟨e, he, ht, hc⟩
+    exact ⟨by simp [Mem.openFile, Mem.setAccessed, he, ht, hc], by simp [RHandle.readToEnd]⟩
+  · intro ha
+    rw [Absent] at ha
+    simp [Mem.openFile, Mem.setAccessed, ha, fail, Res.kind?]
+  · rintro ⟨e, he, ht⟩
+    simp [Mem.openFile, Mem.setAccessed, he, ht, fail, errClass, Res.kind?, ErrKind.cls]
+
+end memObservers
+
+/-! ### the one clause that is false on the reference model -/
+
+/-- the prose contract of `open_file`: "succeeds exactly on files" -/
+def OpenFileSucceedsIffFile (openOk : FMap → Str → Bool) : Prop :=
+  ∀ m p, WF m → Abs p → (openOk m p = true ↔ IsFile m p)
+
+/-- it holds for MemoryFS -/
+theorem mem_openFile_succeeds_iff_file :
+    OpenFileSucceedsIffFile (fun m p => (Mem.openFile m p).1.isOk) :=
+  fun m p _ _ => (mem_openFile_contract m p).1
+
+/-- the tree "/" ∋ directory "/a" -/
+def dirATree : FMap := [("/a".toList, dirEntryNow), ([], dirEntryNow)]
+
+theorem dirATree_wf : WF dirATree := by
+  refine ⟨⟨_, rfl, rfl⟩, ?_⟩
+  intro k e hk hne
+  simp only [dirATree, FMap.find?_cons] at hk
+  split at hk
+  · rename_i h; subst h
+    exact ⟨by decide, dirEntryNow, by decide, rfl⟩
+  · split at hk
+    · rename_i h; exact absurd h.symm hne
+    · cases hk
+
+/-- it is FALSE for PhysicalFS (model and code: `File::open` opens a directory on Linux; only
+the reads fail): `open_file` of the directory "/a" succeeds -/
+theorem openFile_succeeds_iff_file_phys_false :
+    ¬ OpenFileSucceedsIffFile (fun m p => (Phys.openFile m p).isOk) := by
+  intro h
+  have h1 := (h dirATree "/a".toList dirATree_wf rfl).1 (by decide)
+  exact not_isDir_of_isFile h1 ⟨dirEntryNow, by decide, rfl⟩
+
+/-! ### the contract of every primitive, read off two definitions -/
+
+/-- the documented precondition of a primitive call -/
+def Pre (m : FMap) : Mut → Prop
+  | .createDir p  => IsDir m (parentInternal p) ∧ Absent m p
+  | .write p _    => IsDir m (parentInternal p) ∧ (Absent m p ∨ IsFile m p)
+  | .append p _   => IsFile m p
+  | .removeFile p => IsFile m p
+  | .removeDir p  => IsDir m p ∧ NoChildren m p
+
+/-- what a successful call makes of the entry it names -/
+def Named (m : FMap) (m' : FMap) : Mut → Prop
+  | .createDir p  => IsDir m' p
+  | .write p bs   => HasFile m' p bs
+  | .append p bs  => ∃ old, HasFile m p old ∧ HasFile m' p (old ++ bs)
+  | .removeFile p => Absent m' p
+  | .removeDir p  => Absent m' p
+
+/-- the effect of a successful call: the named entry changes as `Named` says and every other
+key keeps its entry -/
+def Effect (m : FMap) (op : Mut) (m' : FMap) : Prop := Named m m' op ∧ Frame m m' op.path
+
+/-- the primitives that need an existing target (the others create it) -/
+def needsTarget : Mut → Bool
+  | .append _ _ | .removeFile _ | .removeDir _ => true
+  | .createDir _ | .write _ _ => false
+
+/-- the contract of one call of one backend (`step` = `stepPhys` or `stepMem`) -/
+structure Contract (step : FMap → Mut → Res Unit × FMap) (m : FMap) (op : Mut) : Prop where
+  /-- it succeeds exactly when the tree meets the precondition -/
+  ok_iff : (step m op).1.isOk = true ↔ Pre m op
+  /-- a successful call changes exactly the entry it names -/
+  effect : (step m op).1.isOk = true → Effect m op (step m op).2
+  /-- a failed call leaves the tree unchanged -/
+  unchanged : (step m op).1.isOk = false → (step m op).2 = m
+  /-- a target missing from an existing directory is reported as not-found -/
+  missing : needsTarget op = true → IsDir m (parentInternal op.path) → Absent m op.path →
+    (step m op).1.kind? = some .fileNotFound
+  /-- create_dir on an occupied path reports the occupant -/
+  occupied : ∀ q, op = .createDir q → IsDir m (parentInternal q) →
+    (IsFile m q → (step m op).1.kind? = some .fileExists) ∧
+    (IsDir m q → (step m op).1.kind? = some .dirExists)
+  /-- and it never panics -/
+  no_panic : (step m op).1 ≠ .panic
+
+/-- **every primitive, both models**: for a well-formed tree and an absolute path -/
+theorem primitive_contracts {m : FMap} (hm : WF m) (op : Mut) (hp : Abs op.path) :
+    Contract stepPhys m op ∧ Contract stepMem m op := by
+  have hnp := (step_agree hm (CoreEq.refl m) op hp).1
+  cases op with
+  | createDir p =>
+    have hc := createDir_contract hm p hp
+    have hc' := mem_createDir_contract m p hp
+    have hocc : ∀ q, Mut.createDir p = Mut.createDir q → q = p := by
+      intro q hq; injection hq with hq; exact hq.symm
+    exact ⟨{ ok_iff := hc.1, effect := fun h => ⟨(hc.2.1 h).1, (hc.2.1 h).2⟩, unchanged := hc.2.2.1,
+             missing := (fun h => by cases h),
+             occupied := (fun q hq hpar => by
+               rw [hocc q hq] at hpar ⊢; exact ⟨hc.2.2.2.1 hpar, hc.2.2.2.2 hpar⟩),
+             no_panic := hnp.2.2 },
+           { ok_iff := hc'.1, effect := hc'.2.1, unchanged := hc'.2.2.1,
+             missing := (fun h => by cases h),
+             occupied := (fun q hq hpar => by
+               rw [hocc q hq] at hpar ⊢; exact ⟨hc'.2.2.2.1 hpar, hc'.2.2.2.2 hpar⟩),
+             no_panic := hnp.2.1 }⟩
+  | write p bs =>
+    have hc := write_contract hm p bs
+    have hc' := mem_write_contract m p hp bs
+    exact ⟨{ ok_iff := hc.1, effect := fun h => ⟨(hc.2.1 h).1, (hc.2.1 h).2.1⟩, unchanged := hc.2.2.1,
+             missing := (fun h => by cases h), occupied := (fun q hq => by cases hq),
+             no_panic := hnp.2.2 },
+           { ok_iff := hc'.1, effect := fun h => ⟨(hc'.2.1 h).1, (hc'.2.1 h).2.1⟩,
+             unchanged := hc'.2.2.1, missing := (fun h => by cases h),
+             occupied := (fun q hq => by cases hq), no_panic := hnp.2.1 }⟩
+  | append p bs =>
+    have hc := append_contract hm p bs
+    have hc' := mem_append_contract m p bs
+    exact ⟨{ ok_iff := hc.1, effect := hc.2.1, unchanged := hc.2.2.1, missing := fun _ => hc.2.2.2.1,
+             occupied := (fun q hq => by cases hq), no_panic := hnp.2.2 },
+           { ok_iff := hc'.1, effect := hc'.2.1, unchanged := hc'.2.2.1,
+             missing := fun _ _ => hc'.2.2.2.1, occupied := (fun q hq => by cases hq),
+             no_panic := hnp.2.1 }⟩
+  | removeFile p =>
+    have hc := removeFile_contract hm p hp
+    have hc' := mem_removeFile_contract m p
+    exact ⟨{ ok_iff := hc.1, effect := fun h => ⟨(hc.2.1 h).1, (hc.2.1 h).2⟩, unchanged := hc.2.2.1,
+             missing := fun _ => hc.2.2.2, occupied := (fun q hq => by cases hq),
+             no_panic := hnp.2.2 },
+           { ok_iff := hc'.1, effect := hc'.2.1, unchanged := hc'.2.2.1,
+             missing := fun _ _ => hc'.2.2.2.1, occupied := (fun q hq => by cases hq),
+             no_panic := hnp.2.1 }⟩
+  | removeDir p =>
+    have hc := removeDir_contract hm p
+    have hc' := mem_removeDir_contract m p
+    exact ⟨{ ok_iff := hc.1, effect := hc.2.1, unchanged := hc.2.2.1, missing := fun _ => hc.2.2.2.1,
+             occupied := (fun q hq => by cases hq), no_panic := hnp.2.2 },
+           { ok_iff := hc'.1, effect := hc'.2.1, unchanged := hc'.2.2.1,
+             missing := fun _ _ => hc'.2.2.2.1, occupied := (fun q hq => by cases hq),
+             no_panic := hnp.2.1 }⟩
+
+/-- hence the two backends accept exactly the same calls, and a successful call leaves the same
+named entry and the same frame on both -/
+theorem primitive_contracts_same_pre {m : FMap} (hm : WF m) (op : Mut) (hp : Abs op.path) :
+    ((stepPhys m op).1.isOk = true ↔ (stepMem m op).1.isOk = true) := by
+  obtain ⟨h1, h2⟩ := primitive_contracts hm op hp
+  rw [h1.ok_iff, h2.ok_iff]
+
+/-! ### the predicates are decidable: the contract can be evaluated on a concrete tree -/
+
+instance (m : FMap) (p : Str) : Decidable (IsDir m p) :=
+  decidable_of_iff ((m.find? p).any (fun e => decide (e.ftype = .dir)) = true)
+    (by unfold IsDir; cases m.find? p <;> simp)
+
+instance (m : FMap) (p : Str) : Decidable (IsFile m p) :=
+  decidable_of_iff ((m.find? p).any (fun e => decide (e.ftype = .file)) = true)
+    (by unfold IsFile; cases m.find? p <;> simp)
+
+instance (m : FMap) (p : Str) : Decidable (Absent m p) := by unfold Absent; exact inferInstance
+
+instance (m : FMap) (p : Str) (bs : Bytes) : Decidable (HasFile m p bs) :=
+  decidable_of_iff ((m.find? p).any (fun e => decide (e.ftype = .file ∧ e.content = bs)) = true)
+    (by unfold HasFile; cases m.find? p <;> simp)
+
+theorem noChildren_iff_keys (m : FMap) (p : Str) :
+    NoChildren m p ↔ ∀ k ∈ m.keys, '/' ∈ k → parentInternal k ≠ p := by
+  constructor
+  · intro h k hk
+    obtain ⟨e, he⟩ := (FMap.mem_keys_iff m k).1 hk
+    exact h k e he
+  · intro h k e he
+    exact h k ((FMap.mem_keys_iff m k).2 ⟨e, he⟩)
+
+instance (m : FMap) (p : Str) : Decidable (NoChildren m p) :=
+  decidable_of_iff _ (noChildren_iff_keys m p).symm
+
+theorem wf_iff_keys (m : FMap) :
+    WF m ↔ IsDir m [] ∧ ∀ k ∈ m.keys, k ≠ [] → '/' ∈ k ∧ IsDir m (parentInternal k) := by
+  unfold WF IsDir
+  constructor
+  · rintro ⟨h1, h2⟩
+    refine ⟨h1, fun k hk hne => ?_⟩
+    obtain ⟨e, he⟩ := (FMap.mem_keys_iff m k).1 hk
+    exact h2 k e he hne
+  · rintro ⟨h1, h2⟩
+    exact ⟨h1, fun k e he hne => h2 k ((FMap.mem_keys_iff m k).2 ⟨e, he⟩) hne⟩
+
+instance (m : FMap) : Decidable (WF m) := decidable_of_iff _ (wf_iff_keys m).symm
+
+instance (m : FMap) (op : Mut) : Decidable (Pre m op) := by
+  cases op <;> (unfold Pre; exact inferInstance)
+
+instance (m m' : FMap) (op : Mut) : Decidable (Named m m' op) := by
+  cases op with
+  | append p bs =>
+    exact decidable_of_iff
+      ((m.find? p).any (fun e => decide (e.ftype = .file ∧ HasFile m' p (e.content ++ bs))) = true)
+      (by
+        show _ ↔ ∃ old, HasFile m p old ∧ HasFile m' p (old ++ bs)
+        rcases Option.eq_none_or_eq_some (m.find? p) with hf | ⟨e, hf⟩
+        · rw [hf]
+          simp only [Option.any_none]
+          constructor
+          · intro h; cases h
+          · rintro ⟨old, ⟨e, he, _⟩, _⟩; rw [hf] at he; cases he
+        · rw [hf]
+          simp only [Option.any_some, decide_eq_true_eq]
+          constructor
+          · rintro ⟨ht, h⟩; exact ⟨e.content, ⟨e, hf, ht, rfl⟩, h⟩
+          · rintro ⟨old, ⟨e', he', ht, hc⟩, h⟩
+            rw [hf] at he'; injection he' with he'; subst he'; subst hc; exact ⟨ht, h⟩)
+  | createDir p => unfold Named; exact inferInstance
+  | write p bs => unfold Named; exact inferInstance
+  | removeFile p => unfold Named; exact inferInstance
+  | removeDir p => unfold Named; exact inferInstance
+
+/-! ### the "each name once" hypothesis of `readDir_contract` is an invariant
+
+`FMap.NodupKeys` (no key stored twice) is a representation invariant of the association list:
+the initial maps have it and every primitive of both models keeps it, whatever the path. -/
+
+theorem nodupKeys_memPublish (m : FMap) (p : Str) (buf : Bytes) (h : FMap.NodupKeys m) :
+    FMap.NodupKeys (memPublish m p buf) := by
+  unfold memPublish
+  split
+  · split
+    · exact FMap.nodup_insert _ _ _ h
+    · exact h
+  · exact h
+
+theorem nodupKeys_init : FMap.NodupKeys Mem.init ∧ FMap.NodupKeys Phys.init := by
+  constructor <;> simp [FMap.NodupKeys, FMap.keys, Mem.init, Phys.init]
+
+theorem nodupKeys_stepMem (m : FMap) (op : Mut) (h : FMap.NodupKeys m) :
+    FMap.NodupKeys (stepMem m op).2 := by
+  cases op with
+  | createDir p =>
+    simp only [stepMem, Mem.pCreateDir, Mem.createDir]
+    repeat' split
+    all_goals first | exact h | exact FMap.nodup_insert _ _ _ h
+  | write p bs =>
+    simp only [stepMem, Mem.pWrite]
+    split
+    · have hc : FMap.NodupKeys (Mem.createFile m p).2 := by
+        unfold Mem.createFile
+        repeat' split
+        all_goals first | exact h | exact FMap.nodup_insert _ _ _ h
+      split
+      · rename_i heq; rw [heq] at hc; exact nodupKeys_memPublish _ _ _ hc
+      · rename_i heq; rw [heq] at hc; exact hc
+      · rename_i heq; rw [heq] at hc; exact hc
+    · exact h
+  | append p bs =>
+    simp only [stepMem, Mem.pAppend]
+    split
+    · exact nodupKeys_memPublish _ _ _ h
+    · exact h
+    · exact h
+  | removeFile p =>
+    simp only [stepMem, Mem.pRemoveFile, Mem.removeFile]
+    repeat' split
+    all_goals first | exact h | exact FMap.nodup_erase _ _ h
+  | removeDir p =>
+    simp only [stepMem, Mem.pRemoveDir, Mem.removeDir]
+    repeat' split
+    all_goals first | exact h | exact FMap.nodup_erase _ _ h
+
+theorem nodupKeys_stepPhys (m : FMap) (op : Mut) (h : FMap.NodupKeys m) :
+    FMap.NodupKeys (stepPhys m op).2 := by
+  cases op with
+  | createDir p =>
+    simp only [stepPhys, Phys.pCreateDir, Phys.createDir]
+    repeat' split
+    all_goals first | exact h | exact FMap.nodup_insert _ _ _ h
+  | write p bs =>
+    simp only [stepPhys, Phys.pWrite]
+    split
+    · have hc : FMap.NodupKeys (Phys.createFile m p).2 := by
+        unfold Phys.createFile
+        repeat' split
+        all_goals first | exact h | exact FMap.nodup_insert _ _ _ h
+      have hw : ∀ m', FMap.NodupKeys m' → FMap.NodupKeys (Phys.writeAt0 m' p bs) := by
+        intro m' h'
+        unfold Phys.writeAt0
+        repeat' split
+        all_goals first | exact h' | exact FMap.nodup_insert _ _ _ h'
+      split
+      · rename_i heq; rw [heq] at hc; exact hw _ hc
+      · rename_i heq; rw [heq] at hc; exact hc
+      · rename_i heq; rw [heq] at hc; exact hc
+    · exact h
+  | append p bs =>
+    simp only [stepPhys, Phys.pAppend]
+    split
+    · unfold Phys.appendAt
+      split
+      · exact FMap.nodup_insert _ _ _ h
+      · exact h
+    · exact h
+    · exact h
+  | removeFile p =>
+    simp only [stepPhys, Phys.pRemoveFile, Phys.removeFile]
+    repeat' split
+    all_goals first | exact h | exact FMap.nodup_erase _ _ h
+  | removeDir p =>
+    simp only [stepPhys, Phys.pRemoveDir, Phys.removeDir]
+    repeat' split
+    all_goals first | exact h | exact FMap.nodup_erase _ _ h
+
+/-! ### Non-vacuity: every contract evaluated on a concrete tree
+
+    /            a/ (empty)      ab/c = [1,2,3]      a.b = [9]
+                 n/日本/f = [0xE6, 0x97]             n/e/ (empty)
+
+`a`, `ab`, `a.b` are siblings whose names are prefixes of one another; `日本` is a multi-byte
+name. Each example states the outcome of the call TOGETHER with the truth value of the
+precondition, so both sides of the `↔` are exhibited. -/
+
+def fileOf (bs : Bytes) : Entry := { fileEntryNow with content := bs }
+
+def exTree : FMap :=
+  [ ([], dirEntryNow),
+    ("/a".toList, dirEntryNow),
+    ("/ab".toList, dirEntryNow),
+    ("/ab/c".toList, fileOf [1, 2, 3]),
+    ("/a.b".toList, fileOf [9]),
+    ("/n".toList, dirEntryNow),
+    ("/n/日本".toList, dirEntryNow),
+    ("/n/日本/f".toList, fileOf [0xE6, 0x97]),
+    ("/n/e".toList, dirEntryNow) ]
+
+theorem exTree_wf : WF exTree := by decide
+
+example : Abs "/n/日本/f".toList := rfl
+
+-- remove_dir: the empty `/a` goes although `/ab/c` and `/a.b` start with "/a"; `/ab` is not empty
+example : (Phys.pRemoveDir exTree "/a".toList).1.isOk = true ∧
+    (IsDir exTree "/a".toList ∧ NoChildren exTree "/a".toList) ∧
+    Absent (Phys.pRemoveDir exTree "/a".toList).2 "/a".toList ∧
+    HasFile (Phys.pRemoveDir exTree "/a".toList).2 "/ab/c".toList [1, 2, 3] := by decide
+example : (Mem.pRemoveDir exTree "/n/e".toList).1.isOk = true ∧ Pre exTree (.removeDir "/n/e".toList) := by decide
+example : (Phys.pRemoveDir exTree "/ab".toList).1.isOk = false ∧ ¬ NoChildren exTree "/ab".toList ∧
+    (Phys.pRemoveDir exTree "/ab".toList).2 = exTree := by decide
+example : (Mem.pRemoveDir exTree "/n/日本".toList).1 = .err .other (some "/n/日本".toList) ∧
+    ¬ Pre exTree (.removeDir "/n/日本".toList) := by decide
+example : errClass (Phys.pRemoveDir exTree "/a.b".toList).1 = some .otherFailure ∧ IsFile exTree "/a.b".toList := by decide
+example : (Phys.pRemoveDir exTree "/a/zz".toList).1.kind? = some .fileNotFound ∧
+    (Mem.pRemoveDir exTree "/a/zz".toList).1.kind? = some .fileNotFound ∧ Absent exTree "/a/zz".toList := by decide
+
+-- write session: new file, overwrite, multi-byte parent; directory target, missing parent, file parent
+example : (Phys.pWrite exTree "/a/new".toList [5, 6]).1.isOk = true ∧ Pre exTree (.write "/a/new".toList [5, 6]) ∧
+    HasFile (Phys.pWrite exTree "/a/new".toList [5, 6]).2 "/a/new".toList [5, 6] ∧
+    HasFile (Phys.pWrite exTree "/a/new".toList [5, 6]).2 "/a.b".toList [9] := by decide
+example : (Mem.pWrite exTree "/ab/c".toList [7]).1.isOk = true ∧ IsFile exTree "/ab/c".toList ∧
+    HasFile (Mem.pWrite exTree "/ab/c".toList [7]).2 "/ab/c".toList [7] := by decide
+example : (Mem.pWrite exTree "/n/日本/g".toList []).1.isOk = true ∧
+    HasFile (Mem.pWrite exTree "/n/日本/g".toList []).2 "/n/日本/g".toList [] := by decide
+example : (Phys.pWrite exTree "/ab".toList [1]).1.isOk = false ∧ IsDir exTree "/ab".toList ∧
+    ¬ Pre exTree (.write "/ab".toList [1]) ∧ (Phys.pWrite exTree "/ab".toList [1]).2 = exTree := by decide
+example : (Mem.pWrite exTree "/zz/x".toList [1]).1.isOk = false ∧ ¬ IsDir exTree (parentInternal "/zz/x".toList) ∧
+    (Mem.pWrite exTree "/zz/x".toList [1]).2 = exTree := by decide
+example : (Phys.pWrite exTree "/a.b/x".toList [1]).1.isOk = false ∧ (Mem.pWrite exTree "/a.b/x".toList [1]).1.isOk = false ∧
+    IsFile exTree (parentInternal "/a.b/x".toList) := by decide
+
+-- append session
+example : (Phys.pAppend exTree "/ab/c".toList [4]).1.isOk = true ∧ Pre exTree (.append "/ab/c".toList [4]) ∧
+    Named exTree (Phys.pAppend exTree "/ab/c".toList [4]).2 (.append "/ab/c".toList [4]) ∧
+    HasFile (Phys.pAppend exTree "/ab/c".toList [4]).2 "/ab/c".toList [1, 2, 3, 4] := by decide
+example : (Mem.pAppend exTree "/n/日本/f".toList [0xA5]).1.isOk = true ∧
+    HasFile (Mem.pAppend exTree "/n/日本/f".toList [0xA5]).2 "/n/日本/f".toList [0xE6, 0x97, 0xA5] := by decide
+example : (Phys.pAppend exTree "/a".toList [4]).1.isOk = false ∧ (Mem.pAppend exTree "/a".toList [4]).1.isOk = false ∧
+    IsDir exTree "/a".toList ∧ ¬ Pre exTree (.append "/a".toList [4]) := by decide
+example : (Phys.pAppend exTree "/a/c".toList [4]).1.kind? = some .fileNotFound ∧
+    (Mem.pAppend exTree "/a/c".toList [4]).1.kind? = some .fileNotFound ∧ Absent exTree "/a/c".toList := by decide
+
+-- create_dir and remove_file through the summary vocabulary
+example : (stepPhys exTree (.createDir "/a/日本".toList)).1.isOk = true ∧ Pre exTree (.createDir "/a/日本".toList) ∧
+    Named exTree (stepPhys exTree (.createDir "/a/日本".toList)).2 (.createDir "/a/日本".toList) := by decide
+example : (stepMem exTree (.createDir "/a.b".toList)).1.kind? = some .fileExists ∧
+    (stepMem exTree (.createDir "/ab".toList)).1.kind? = some .dirExists ∧
+    ¬ Pre exTree (.createDir "/a.b".toList) := by decide
+example : (stepMem exTree (.removeFile "/a.b".toList)).1.isOk = true ∧ Pre exTree (.removeFile "/a.b".toList) ∧
+    Named exTree (stepMem exTree (.removeFile "/a.b".toList)).2 (.removeFile "/a.b".toList) ∧
+    IsDir (stepMem exTree (.removeFile "/a.b".toList)).2 "/a".toList := by decide
+example : (stepPhys exTree (.removeFile "/a".toList)).1.isOk = false ∧ ¬ Pre exTree (.removeFile "/a".toList) := by decide
+
+-- observers
+example : Phys.exists_ exTree "/n/日本/f".toList = true ∧ exTree.contains "/n/日本/f".toList = true ∧
+    ¬ Absent exTree "/n/日本/f".toList := by decide
+example : Phys.exists_ exTree "/a/c".toList = false ∧ exTree.contains "/a/c".toList = false ∧
+    Phys.exists_ exTree "/a.b/x".toList = false ∧ Absent exTree "/a/c".toList := by decide
+example : (Phys.metadata exTree "/ab/c".toList).toOption.map (fun md => (md.ftype, md.len)) = some (.file, 3) ∧
+    (Mem.metadata exTree "/ab/c".toList).toOption.map (fun md => (md.ftype, md.len)) = some (.file, 3) ∧
+    HasFile exTree "/ab/c".toList [1, 2, 3] := by decide
+example : (Phys.metadata exTree "/ab/zz".toList).kind? = some .fileNotFound ∧
+    (Mem.metadata exTree "/ab/zz".toList).kind? = some .fileNotFound := by decide
+example : Phys.readDir exTree "/n".toList = .ok ["日本".toList, "e".toList] ∧
+    Mem.readDir exTree "/n".toList = .ok ["日本".toList, "e".toList] ∧ IsDir exTree "/n".toList := by decide
+example : Phys.readDir exTree "/a".toList = .ok [] ∧ Mem.readDir exTree "/ab".toList = .ok ["c".toList] ∧
+    Phys.readDir exTree [] = .ok ["a".toList, "ab".toList, "a.b".toList, "n".toList] := by decide
+example : (Phys.readDir exTree "/a.b".toList).isOk = false ∧ errClass (Mem.readDir exTree "/a.b".toList) = some .otherFailure ∧
+    (Phys.readDir exTree "/zz".toList).kind? = some .fileNotFound ∧ IsFile exTree "/a.b".toList := by decide
+example : Phys.openFile exTree "/n/日本/f".toList = .ok { content := [0xE6, 0x97], pos := 0 } ∧
+    (Mem.openFile exTree "/n/日本/f".toList).1 = .ok { content := [0xE6, 0x97], pos := 0 } ∧
+    IsFile exTree "/n/日本/f".toList := by decide
+example : (Mem.openFile exTree "/n".toList).1.isOk = false ∧ (Phys.openFile exTree "/n/zz".toList).kind? = some .fileNotFound ∧
+    (Phys.openFile exTree "/n".toList).isOk = true ∧ ¬ IsFile exTree "/n".toList := by decide
+
+-- MemoryFS `open_file` stamps the access time before it checks the type: a refused open of a
+-- directory still changes that stamp (and nothing else: `mem_openFile_map`)
+example : (Mem.openFile Mem.init []).1.isOk = false ∧ (Mem.openFile Mem.init []).2 ≠ Mem.init ∧
+    (Mem.openFile Mem.init []).2.find? [] = some { dirEntryNow with modified := .unset } := by decide
+
 end Vfs.C01
